@@ -372,6 +372,24 @@ def m_split_at_mut(I, st, info, args, depth):
     return out
 
 
+@pmodel(r"^alloc::vec::Vec::<T, A>::split_off$")
+def m_split_off(I, st, info, args, depth):
+    p = I.resolve(st, args[0])
+    s_ = _bytes_seq(I, st, args[0])
+    at = I.resolve(st, args[1])
+    if not (isinstance(p, Ptr) and isinstance(at, Aff)):
+        return None
+    out = []
+    for s2, t in MD.fork_bool(I, st, I.compare(st, "Le", at, s_.length)):
+        if t:
+            head, tail_ = subseq(I, s2, s_, Aff(0), at), subseq(I, s2, s_, at, s_.length)
+            I.store_to(s2, p, head)
+            out.append((s2, "return", tail_))
+        else:
+            out.append((s2, "panic", ("split_off", info["fn"], info["ln"])))
+    return out
+
+
 @pmodel(r"^core::slice::<impl \[T\]>::(split_at|split_at_checked)$")
 def m_split_at(I, st, info, args, depth):
     s_ = _bytes_seq(I, st, args[0])
